@@ -20,9 +20,9 @@ RULE = ('modules of 2-4 functions over the fragment (raise of builtin / custom e
 
 EXCS = ['ValueError', 'KeyError', 'LookupError', 'ZeroDivisionError', 'ArithmeticError', 'OSError', 'RuntimeError', 'TypeError', 'SystemExit', 'BaseException', 'MyError']
 MARKERS = ['stdout', 'stderr', 'io', 'global', 'import', 'read', 'write', 'random', 'time', 'syscall', 'network']
-LEAVES = ['raise', 'raise_call', 'assert', 'exit', 'pass', 'return', 'print', 'stdout', 'stderr', 'global', 'import', 'open_r', 'open_w', 'random', 'time', 'syscall']
+LEAVES = ['raise', 'raise_call', 'assert', 'exit', 'pass', 'return', 'print', 'stdout', 'stderr', 'global', 'import', 'open_r', 'open_w', 'random', 'time', 'syscall', 'open_r2', 'open_a', 'syscall2']
 OWN_MARKER = {'print': 'stdout', 'stdout': 'stdout', 'stderr': 'stderr', 'global': 'global', 'import': 'import', 'open_r': 'read', 'open_w': 'write',
-              'random': 'random', 'time': 'time', 'syscall': 'syscall'}
+              'random': 'random', 'time': 'time', 'syscall': 'syscall', 'open_r2': 'read', 'open_a': 'write', 'syscall2': 'syscall'}
 
 
 def gen_stmt(rnd, depth, callees):
@@ -73,7 +73,9 @@ def r_stmt(s, ind, out, prefix=''):
     k = s[0]
     simple = {'assert': 'assert x', 'exit': 'exit(1)', 'pass': 'pass', 'return': 'return 1', 'print': 'print("hello")', 'stdout': 'sys.stdout.write("a")',
               'stderr': 'sys.stderr.write("a")', 'global': 'global G', 'import': 'import json', 'open_r': 'open("a.txt")', 'open_w': 'open("a.txt", "w")',
-              'random': 'random.choice([1, 2])', 'time': 'time.time()', 'syscall': 'os.system("ls")'}
+              'random': 'random.choice([1, 2])', 'time': 'time.time()', 'syscall': 'os.system("ls")',
+              # the same effects, written another way: a file name that contains the letter w, append / update modes, another process-spawning call
+              'open_r2': 'open("words.txt")', 'open_a': 'open("a.txt", "a")', 'syscall2': 'os.kill(0, 0)'}
     if k in simple: out.append(p + simple[k])
     elif k == 'raise': out.append(f'{p}raise {s[1]}')
     elif k == 'raise_call': out.append(f'{p}raise {s[1]}("bad")')
@@ -115,7 +117,7 @@ def r_func(f, out, prefix='', strip=False):
     out += ['', '']
 
 
-HEADER = ['import os', 'import sys', 'import random', 'import time', 'import deal', '', 'x = 1', 'G = 0', '', 'class MyError(Exception):', '    pass', '', '']
+HEADER = ['import os', 'import sys', 'import random', 'import time', 'import subprocess', 'import deal', '', 'x = 1', 'G = 0', '', 'class MyError(Exception):', '    pass', '', '']
 
 
 def render(m, strip=False):
@@ -126,7 +128,7 @@ def render(m, strip=False):
 
 def render_caller(m):
     """a module whose single declared function calls every function of libc18"""
-    out = list(HEADER[:5]) + ['import libc18', '', 'x = 1', '', '@deal.raises()', '@deal.has()', 'def use(x):']
+    out = list(HEADER[:6]) + ['import libc18', '', 'x = 1', '', '@deal.raises()', '@deal.has()', 'def use(x):']
     for f in m['funcs']: out.append(f'    libc18.{f["name"]}(1)')
     out.append('    return 2')
     return '\n'.join(out) + '\n'
@@ -145,7 +147,8 @@ def ccls(n):
 def cstmt(s):
     k = s[0]
     leaf = {'assert': 'LAssert', 'exit': 'LExit', 'pass': 'LPass', 'return': 'LReturn', 'print': 'LPrint', 'stdout': 'LStdout', 'stderr': 'LStderr', 'global': 'LGlobal',
-            'import': 'LImport', 'open_r': 'LOpenR', 'open_w': 'LOpenW', 'random': 'LRandom', 'time': 'LTime', 'syscall': 'LSyscall'}
+            'import': 'LImport', 'open_r': 'LOpenR', 'open_w': 'LOpenW', 'random': 'LRandom', 'time': 'LTime', 'syscall': 'LSyscall',
+            'open_r2': 'LOpenR', 'open_a': 'LOpenW', 'syscall2': 'LSyscall'}
     cb = lambda b: '[' + '; '.join(cstmt(x) for x in b) + ']'
     if k in leaf: return f'(SLeaf {leaf[k]})'
     if k in ('raise', 'raise_call'): return f'(SLeaf (LRaise {ccls(s[1])}))'
